@@ -1741,7 +1741,13 @@ def judge(run, w, item, obs, twin_fetch):
 # cases
 # ---------------------------------------------------------------------------------------------------------------------
 
+_FI_NOHIT = ('SERVICE=WMS&VERSION=1.1.1&REQUEST=GetFeatureInfo&LAYERS=covered&QUERY_LAYERS=covered&STYLES=&SRS=EPSG:4326&'
+             'BBOX=10.0,50.0,15.0,55.0&WIDTH=100&HEIGHT=100&FORMAT=image/png&X=50&Y=50&INFO_FORMAT=image/png')
 DIRECTED = [
+    # empty feature-info answer declared with the client's INFO_FORMAT (open known finding: reproduced in every run)
+    {'scn': 'A', 'svc': 'wms', 'op': 'featureinfo-nohit_1.1.1', 'mut': 'type', 'param': 'INFO_FORMAT', 'marker': None,
+     'payload': 'image/png', 'req': {'m': 'GET', 'path': '/wms', 'h': {}, 'qs': _FI_NOHIT},
+     'twin': {'m': 'GET', 'path': '/wms', 'h': {}, 'qs': _FI_NOHIT}},
     # image/blank exception handlers echo FORMAT as content type (open known finding: reproduced in every run)
     {'scn': 'A', 'svc': 'wms', 'op': 'getmap-error-blank_1.1.1', 'mut': 'markup', 'param': 'FORMAT', 'marker': 'zq900001',
      'payload': ',zq900001',
